@@ -631,6 +631,20 @@ def segs(seq, k, head=0):
     return [[seq, 1]] if len(seq) else []
 
 
+def schema_of(cols, types):
+    """the three documented forms of "the matching schema", chosen by a hash of the column types (no random draw):
+    (name, 'int') strings, (name, int) Python types, a typing.NamedTuple class"""
+    import typing
+    import zlib
+    form = zlib.crc32(('%d:' % len(types) + ','.join(types)).encode()) % 3
+    if form == 0:
+        return list(zip(cols, types))
+    py = {'int': int, 'float': float, 'bool': bool, 'str': str}
+    if form == 1:
+        return [(c, py[t]) for c, t in zip(cols, types)]
+    return typing.NamedTuple('Row%d' % (zlib.crc32(','.join(types).encode()) % 100000), [(c, py[t]) for c, t in zip(cols, types)])
+
+
 def run_impl(case):
     import rx
     from rxsci.container import csv
@@ -638,7 +652,7 @@ def run_impl(case):
     import rxsci.io.file as file
     sep, esc, types = case['sep'], case['esc'], case['types']
     cols = ['c%d' % i for i in range(len(types))]
-    parser = csv.create_line_parser(dtype=list(zip(cols, types)), separator=sep, escapechar=esc)
+    parser = csv.create_line_parser(dtype=schema_of(cols, types), separator=sep, escapechar=esc)
     if case['kind'] == 'parse':
         rows, end = collect(rx.from_(case['lines']).pipe(csv.load(parser)))
         return {'rows': [[enc(v) for v in r] for r in rows], 'end': end}
